@@ -513,7 +513,9 @@ def execute(plan, tape):
                     # one get_values() call with repeated terms (optionally very many of them): every
                     # term gets its own value, and the call returns however long the list is
                     names_ = sorted(syms)
-                    reps = [names_[j % len(names_)] for j in range(o["many"])]
+                    # (repeats in a tape-chosen order, every symbol at least once, a new one last)
+                    reps = [names_[tape.draw(len(names_), "get_values.pick")] for j in range(max(0, o["many"] - len(names_)))] \
+                        + list(reversed(names_))
                     terms = [mgr.get_symbol(n_) for n_ in reps]
                     vals = api("get_values", pf.get_values, terms)
                     for n_, t_ in zip(reps, terms):
